@@ -47,7 +47,8 @@ PORTS = {'mac': ['/dev/cu.usbmodem1411', '/dev/cu.usbmodem14201', '/dev/cu.usbmo
          'py27': ['COM3', 'COM4', 'COM5', 'COM7', 'COM12', 'COM1'],
          'nameonly': ['/dev/ttyACM0', '/dev/ttyACM1', '/dev/ttyACM2', '/dev/ttyACM3', '/dev/ttyACM10', '/dev/ttyACM11']}
 NICK_POOL = ['Bob', 'AxiDraw_7', 'NextDraw01', 'East', 'east2', 'Plotter', 'ab', 'Zed', 'MiniKit', 'Lab-3', 'bob2',
-             'x1y2z3', 'Studio A', 'Axi Draw 2', 'West Wing 3']
+             'x1y2z3', 'Studio A', 'Axi Draw 2', 'West Wing 3', 'Axi+1', 'Rm[4]', 'Lab(2', 'a.b*c', 'Emma', 'Bart',
+             'test rig', 'dot', 'SER', 'OK']
 FOREIGN = [('FT232R USB UART', 'USB VID:PID=0403:6001 SER=A9XYZ LOCATION=1-3'),
            ('n/a', 'n/a'),
            ('Arduino Uno', 'USB VID:PID=2341:0043 SER=7533 LOCATION=1-1.4'),
@@ -81,6 +82,10 @@ class Bus:
             for i, b in enumerate(self.specs):
                 if b['port'] == op['port']:
                     self.plugged[i] = (w == 'replug')
+        elif w == 'rename':
+            for i, b in enumerate(self.specs):
+                if b['port'] == op['port'] and b.get('kind') == 'ebb' and 'desc' not in b:
+                    self.specs[i] = dict(b, nick=op['nick'])
         elif w == 'reorder':
             self.order = [self.order[i] for i in op['order']]
         elif w == 'bus_raises':
@@ -434,7 +439,7 @@ def gen_lookup(rng, boards, listing_ops):
 
 def gen(rng, idx):
     boards = make_bus(rng)
-    world = {'boards': boards}
+    world = {'boards': boards, 'enum': rng.choice(['list', 'list', 'iter', 'tuple'])}
     ops = []
     listing_ops = []
     n = rng.randint(3, 16)
@@ -499,7 +504,14 @@ def gen(rng, idx):
         elif boards:
             # environment change: the listings taken before it no longer describe the bus
             x = rng.random()
-            if x < 0.3:
+            named = [b for b in boards if b.get('kind') == 'ebb' and 'desc' not in b]
+            if x < 0.2 and named:
+                b = rng.choice(named)
+                nn = rng.choice(NICK_POOL + [''])
+                if b.get('style') in ('win', 'py27') and rng.random() < 0.5:
+                    nn = nn.replace(' ', '_')
+                ops.append({'op': 'env', 'what': 'rename', 'port': b['port'], 'nick': nn})
+            elif x < 0.3:
                 ops.append({'op': 'env', 'what': 'unplug', 'port': rng.choice(boards)['port']})
             elif x < 0.55:
                 ops.append({'op': 'env', 'what': 'replug', 'port': rng.choice(boards)['port']})
@@ -605,3 +617,5 @@ def sweep_expand(cell):
                         if isinstance(a, dict) and 'ret_of' in a:
                             a['ret_of'] = ops[a['ret_of']]['id']
                 yield {'prop': PROP, 'world': {'boards': boards}, 'ops': ops, 'faults': {}, 'snap_dev': False}
+                yield {'prop': PROP, 'world': {'boards': boards, 'enum': 'iter'}, 'ops': ops, 'faults': {},
+                       'snap_dev': False}
